@@ -237,6 +237,57 @@ func comb(r *vproto.Rng, n int) []ip {
 	return ps
 }
 
+// collinear trap: a run A … B whose interior vertices lie off the line AB but within a small
+// tolerance, plus — earlier or later in the curve — a segment lying ON the line AB at integer
+// parameters (overlapping the chord, touching it, at distance exactly 1 from A, disjoint …).
+// This drives segMakesNotSimple into the parallel/collinear branch of findIntersection with
+// all its boundary cases (the source scales the parameters by |d0| instead of |d0|²).
+func collTrap(r *vproto.Rng) []ip {
+	dirs := []ip{{1, 0}, {0, 1}, {-1, 0}, {0, -1}, {1, 1}, {1, -1}, {2, 0}, {0, 3}, {3, 4}, {2, 1}}
+	d := dirs[r.Intn(len(dirs))]
+	n := ip{-d.y, d.x}
+	A := ip{int64(r.Range(-6, 6)), int64(r.Range(-6, 6))}
+	L := int64(r.Range(2, 9))
+	at := func(t, s int64) ip { return ip{A.x + t*d.x + s*n.x, A.y + t*d.y + s*n.y} }
+	run := []ip{at(0, 0)}
+	for t := int64(1); t < L; t++ {
+		if r.Chance(0.7) {
+			run = append(run, at(t, int64([]int{1, -1, 1, -1, 2, 0}[r.Intn(6)])))
+		}
+	}
+	run = append(run, at(L, 0))
+	u := int64(r.Range(-3, int(L)+3))
+	v := int64(r.Range(-3, int(L)+3))
+	if r.Chance(0.35) {
+		u = []int64{1, 0, L, L - 1, -1, L + 1}[r.Intn(6)]
+	}
+	if u == v {
+		v = u + int64(r.Range(1, 3))
+	}
+	trap := []ip{at(u, 0), at(v, 0)}
+	if r.Chance(0.3) {
+		trap = append(trap, at(v+int64(r.Range(1, 2)), 0))
+	}
+	far1 := at(int64(r.Range(-4, int(L)+4)), int64(r.Range(4, 9)))
+	far2 := at(int64(r.Range(-4, int(L)+4)), -int64(r.Range(4, 9)))
+	var ps []ip
+	tail := []ip{}
+	for k := r.Intn(3); k > 0; k-- {
+		tail = append(tail, at(int64(r.Range(-5, int(L)+5)), int64(r.Range(-9, 9))))
+	}
+	switch r.Intn(4) {
+	case 0:
+		ps = append(append(append(ps, trap...), far1), run...)
+	case 1:
+		ps = append(append(append(ps, run...), far1), trap...)
+	case 2:
+		ps = append(append(append(append(ps, trap...), far1), run...), far2)
+	default:
+		ps = append(append(append(append(ps, far2), run...), far1), trap...)
+	}
+	return append(ps, tail...)
+}
+
 // star-shaped closed ring around (cx,cy): first == last
 func starRing(r *vproto.Rng, cx, cy int64, rad float64, m int) []ip {
 	if m <= 0 {
@@ -292,8 +343,10 @@ func lineOf(r *vproto.Rng, big bool) (string, []ip) {
 			n = 60
 		}
 		return "gp", gpLine(r, n)
-	case k < 18:
+	case k < 17:
 		return "spiral", spiral(r, n)
+	case k < 19:
+		return "colltrap", collTrap(r)
 	default:
 		return "comb", comb(r, n)
 	}
@@ -351,7 +404,7 @@ func gen(seed uint64, tier string) {
 		84.03, 628.63, 115.31, 645.31, 118.75, 681.96, 109.94, 704.43, 84.39, 715.17, 60.20, 716.24, 42.37, 703.14, 34.64, 675.16,
 		46.31, 658.05, 69.50, 645.16, 85.68, 651.96, 98.78, 669.93, 92.84, 691.98, 68.07, 699.21, 72.58, 676.59)))
 
-	n := 2600
+	n := 6000
 	big := false
 	if tier == "thorough" {
 		n, big = 30000, true
